@@ -5,15 +5,16 @@ PID=$1; FILTER=$2; shift 2
 CHECKS=${*:-$PID}
 low=$(echo $PID | tr 'A-Z' 'a-z')
 cd "$(dirname "$0")/.." || exit 2
-for d in /tmp/seed_${low}_out/[0-9]*; do
+R=${ROUND:-}
+for d in /tmp/seed${R}_${low}_out/[0-9]*; do
   i=$(basename $d)
   [ -f $d/patch.diff ] || continue
-  dst=$(pwd)/seeded/$PID-$i
+  if [ -n "$R" ]; then dst=$(pwd)/seeded/$PID-r$R-$i; else dst=$(pwd)/seeded/$PID-$i; fi
   mkdir -p $dst
   cp $d/patch.diff $d/demo.rs $dst/ 2>/dev/null
   [ -f $d/notes.txt ] && cp $d/notes.txt $dst/
-  echo "=== $PID-$i"
-  tools/confirm_seed.sh $dst ${low}_$i "$FILTER" > $dst/confirm.log 2>&1
+  echo "=== $PID-${R:+r$R-}$i"
+  tools/confirm_seed.sh $dst ${low}${R}_$i "$FILTER" > $dst/confirm.log 2>&1
   cat $dst/confirm.log | grep -v "^WARNING"
   python3 - "$dst" "$PID" $CHECKS <<'PY'
 import json,sys,os
